@@ -3,6 +3,7 @@ use crate::engine::{Ctx, Report};
 use serde_json::Value;
 
 pub mod c01;
+pub mod c02;
 pub mod c03;
 pub mod c04;
 pub mod c05;
@@ -31,6 +32,7 @@ pub struct Prop {
 pub fn all() -> Vec<Prop> {
     vec![
         Prop { id: "C01", run: c01::run, replay: c01::replay },
+        Prop { id: "C02", run: c02::run, replay: c02::replay },
         Prop { id: "C03", run: c03::run, replay: c03::replay },
         Prop { id: "C04", run: c04::run, replay: c04::replay },
         Prop { id: "C05", run: c05::run, replay: c05::replay },
